@@ -49,8 +49,8 @@ func init() {
 	reg("C17", ruleEmptyBatchGuard, ruleStepFraming, ruleFallbackBatchTruncates)
 	reg("C15", ruleStateMachineSchemaCheck, ruleMarshalCoverage, ruleSchemaCanonical, rulePrunes(schemaFiles, "V5", 2), ruleRewriterDescends(schemaFiles, "V8", 2), rulePreviousSchemasPositional)
 	reg("C03", ruleEmittedSymbols, rulePlan, ruleJsonKinds, ruleTrivialRecordTrait, ruleJsonNamesAreModelNames, ruleCppEnumUnderlyingType)
-	reg("C08", ruleOptionalDeref(backendFiles, "NP1", 20), ruleDocstringQuotePadding, ruleEmittedSymbols, ruleSwitchDefaults(backendFiles, "P4", 25), ruleReservedTables, ruleIdentifierHelpers, ruleDependenciesFirst, ruleOptionGating, ruleUniquenessVsMangling)
-	reg("C19", ruleCommonTypeMap, ruleEmitterSiblings, ruleParenthesisation, ruleOperatorTokens, rulePromotionNotBypassed, ruleConversionAlwaysExplicit, ruleMatlabConversionClass, ruleSizeFunctionTokens)
+	reg("C08", ruleGeneralizeUnderlying, ruleOptionalDeref(backendFiles, "NP1", 20), ruleDocstringQuotePadding, ruleEmittedSymbols, ruleSwitchDefaults(backendFiles, "P4", 25), ruleReservedTables, ruleIdentifierHelpers, ruleDependenciesFirst, ruleOptionGating, ruleUniquenessVsMangling)
+	reg("C19", ruleGeneralizeUnderlying, ruleCommonTypeMap, ruleEmitterSiblings, ruleParenthesisation, ruleOperatorTokens, rulePromotionNotBypassed, ruleConversionAlwaysExplicit, ruleMatlabConversionClass, ruleSizeFunctionTokens)
 	reg("C13", rulePlan, ruleAliasTable, ruleFilesAreCombined, ruleSpellingErased, ruleShorthandTwins, ruleDocCommentSuffix, ruleTypeTags, ruleDimensionItemSpellings, ruleSchemaCanonical, rulePrunes(topoSortFiles, "V5", 2))
 	reg("C07", ruleStateMachine, ruleNoReturnBeforeStateGuard)
 	reg("C02", ruleJsonKinds, ruleUnionTagDecision, ruleKindTests, ruleOptionalFieldSymmetry, ruleJsonNamesAreModelNames)
